@@ -323,6 +323,8 @@ def audit(pl, targets):
     return ok, details
 
 def stage_build(profile='debug'):
+    with open(os.path.join(HARNESS, 'Cargo.toml.in')) as f:
+        write_if_changed(os.path.join(HARNESS, 'Cargo.toml'), f.read().replace('@REPO@', REPO))
     if not os.path.exists(os.path.join(HARNESS, 'Cargo.lock')):
         shutil.copy(os.path.join(REPO, 'Cargo.lock'), os.path.join(HARNESS, 'Cargo.lock'))
     cmd = ['cargo', 'build', '--offline'] + (['--release'] if profile == 'release' else [])
@@ -331,8 +333,13 @@ def stage_build(profile='debug'):
 
 # ---------------------------------------------------------------------------
 def load_known():
+    """known_findings.json plus per-property fragments known_findings.d/*.json (all committed, read-only at run time)"""
+    out = []
     p = os.path.join(VERIF, 'known_findings.json')
-    with open(p) as f: return json.load(f)
+    with open(p) as f: out += json.load(f)
+    for q in sorted(glob.glob(os.path.join(VERIF, 'known_findings.d', '*.json'))):
+        with open(q) as f: out += json.load(f)
+    return out
 
 def write_replay(pid, kind, body):
     os.makedirs(os.path.join(VERIF, 'replays'), exist_ok=True)
